@@ -10,7 +10,7 @@
          wr  - some value is indeed not writable (length outside min/max/prefix range)
          mut - Done() reported what Run(p,s) demands (values and consumed bytes, or an error of an allowed
                class), off <= Len(s), allocation <= 64 KiB + 16*Len(s), iterations <= Len(s) + 1.
-   A value <<-1>> demanded by the model matches anything (timestamps beyond MaxInt64 ns).               *)
+   A timestamp beyond MaxInt64 ns has no demanded reading (TimeWild).                                    *)
 EXTENDS Deser, Json, SequencesExt
 
 VARIABLE l
@@ -19,9 +19,8 @@ Log == ndJsonDeserialize("records.ndjson")
 AllocBound(n) == 65536 + 16 * n
 Writable(p, v) == Len(v) = Len(p) /\ \A i \in 1..Len(p) : EncOK(p[i], v[i])
 \* timestamps: a raw value above MaxInt64 ns has no demanded reading
-Wild(op, x) == IF op.op = "Time" /\ x[1] >= 128 THEN <<-1>> ELSE x
-Demanded(p, vv) == [i \in 1..Len(vv) |-> Wild(p[i], vv[i])]
-Match(got, want) == Len(got) = Len(want) /\ \A i \in 1..Len(want) : want[i] = <<-1>> \/ got[i] = want[i]
+TimeWild(op, x) == op.op = "Time" /\ x[1] >= 128
+Match(p, got, want) == Len(got) = Len(want) /\ \A i \in 1..Len(want) : TimeWild(p[i], want[i]) \/ got[i] = want[i]
 
 OutJ(o) == [ok |-> o.ok, vals |-> o.vals, off |-> o.off, errs |-> SetToSeq(o.errs)]
 WantOf(r) == CASE r.k = "rt"  -> [writable |-> Writable(r.p, r.v), w |-> IF Writable(r.p, r.v) THEN SerEnc(r.p, r.v) ELSE <<>>,
@@ -31,11 +30,11 @@ WantOf(r) == CASE r.k = "rt"  -> [writable |-> Writable(r.p, r.v), w |-> IF Writ
 Good(r) ==
   CASE r.k = "rt"  -> /\ Writable(r.p, r.v)
                       /\ r.w = SerEnc(r.p, r.v)
-                      /\ r.got.ok /\ Match(r.got.vals, Demanded(r.p, r.v)) /\ r.got.off = Len(r.w)
+                      /\ r.got.ok /\ Match(r.p, r.got.vals, r.v) /\ r.got.off = Len(r.w)
     [] r.k = "wr"  -> ~Writable(r.p, r.v)
     [] r.k = "mut" -> LET o == Outcome(Run(r.p, r.s)) IN
                       /\ r.got.ok = o.ok
-                      /\ (o.ok => Match(r.got.vals, Demanded(r.p, o.vals)) /\ r.got.off = o.off)
+                      /\ (o.ok => Match(r.p, r.got.vals, o.vals) /\ r.got.off = o.off)
                       /\ (~o.ok => r.got.err \in o.errs)
                       /\ r.got.off <= Len(r.s)
                       /\ r.alloc <= AllocBound(Len(r.s))
